@@ -140,7 +140,18 @@ func c02Setup(rc *RunCtx) simrt.Config {
 			c.pZero = 30
 		}
 	}
-	if c.tieD == 0 && !c.hist && !c.wrap && (c.kind == TkTCP || c.kind == TkReuse) && r.Choose(2) == 0 {
+	if c.tieD == 0 && !c.hist && !c.wrap && c.kind.pipelined() && c.kind != TkUDP && r.Choose(4) == 0 {
+		// The same on pipelined connections: while any query is in flight the
+		// connection is not idle, so the idle deadline must not apply (one caller
+		// or several; see DESIGN 12.3/12.4 for the history of this family).
+		if r.Choose(2) == 0 {
+			c.callers = 1
+			c.perCall = []int{2 + r.Choose(widen(5, 9))}
+			c.deadline = []time.Duration{[]time.Duration{0, 20 * time.Second}[r.Choose(2)]}
+		}
+		c.idle = []time.Duration{200500 * time.Microsecond, 750500 * time.Microsecond}[r.Choose(2)]
+		c.pDup = 0
+	} else if c.tieD == 0 && !c.hist && !c.wrap && (c.kind == TkTCP || c.kind == TkReuse) && r.Choose(2) == 0 {
 		// Non-pipelined connections (one query at a time, which arms its own 6 s
 		// deadline) with idle timeouts shorter than the reply latencies: the idle
 		// deadline must not apply while the query is in flight. (On a pipelined
